@@ -61,3 +61,26 @@ CHECKS["C19"] = {
         {"variant": "plain", "engine": "serial", "mode": "declared", "procs_quick": 12, "procs_thorough": 64, "rounds": 1},
     ],
 }
+
+GUARD_ASSUME = ["programs: 2-4 threads x 2-6 operations on one wrapper; recursive mutex types and custom lockables are not exercised",
+                "liveness is restated as bounded progress: every thread of a small round terminates (logical deadlock/livelock detection in the "
+                "serial engine, blocked-state watchdog in the stress engine)"]
+
+CHECKS["C01"] = {
+    "src": "C01.cpp",
+    "level": "exploration",
+    "rule": "generated client programs (2-4 threads x 2-6 ops drawn from lock, try_lock, try_lock_for/until, load, store, operator=, modify) on "
+            "guarded / guarded_opt(true) / shared_guarded / shared_guarded_opt(true) / ordered_guarded x {mutex, timed_mutex, shared_mutex, "
+            "shared_timed_mutex}; every access opens a window on the payload (any two windows conflict), increments append a unique id. "
+            "Oracles: no window overlap, no torn payload, no lost/duplicated id, reads are prefixes and not stale (logical clock), no lock held at "
+            "quiescence, no foreign/double unlock (shadow state), all threads terminate. Non-trivial: some lock acquisition in the round found "
+            "the lock taken; distinct = (program, schedule signature, outcome).",
+    "assumptions": GUARD_ASSUME,
+    "runs": [
+        {"variant": "plain", "engine": "serial", "procs": 6, "rounds_quick": 6000, "rounds_thorough": 120000},
+        {"variant": "plain", "engine": "stress", "procs": 3, "rounds_quick": 3000, "rounds_thorough": 60000},
+        {"variant": "asan", "engine": "stress", "procs": 3, "rounds_quick": 1500, "rounds_thorough": 30000},
+        {"variant": "asan", "engine": "serial", "procs": 2, "rounds_quick": 1500, "rounds_thorough": 30000},
+        {"variant": "tsan", "engine": "stress", "procs": 2, "rounds_quick": 1000, "rounds_thorough": 20000},
+    ],
+}
